@@ -10,6 +10,7 @@ mod oracle;
 mod tree;
 mod probe;
 mod props;
+mod replay;
 mod report;
 mod rng;
 mod sexp;
@@ -25,6 +26,10 @@ fn main() {
         std::panic::set_hook(Box::new(|_| {}));
         let ok = probe::run();
         std::process::exit(if ok { 0 } else { 1 });
+    }
+    if args[1] == "replay" {
+        std::panic::set_hook(Box::new(|_| {}));
+        std::process::exit(replay::run(&args[2]));
     }
     if args[1] == "c05-child" {
         std::panic::set_hook(Box::new(|_| {}));
